@@ -312,8 +312,15 @@ func checkC19(c *Ctx) {
 			}
 			return ""
 		},
-		Cond:   p.condMentions("LoadBalancer.wsPool", "Server).Shutdown"),
-		Expand: func(*ssa.Function, ssa.CallInstruction) bool { return false },
+		Cond: p.condMentions("LoadBalancer.wsPool", "Server).Shutdown"),
+		Expand: func(callee *ssa.Function, site ssa.CallInstruction) bool {
+			// unexported helpers of the balancer / the command that a shutdown step was extracted into
+			pk := fnPkg(callee)
+			if pk == nil || callee.Object() == nil || callee.Object().Exported() {
+				return false
+			}
+			return strings.HasSuffix(pk.Pkg.Path(), "/internal/loadbalancer") || strings.HasSuffix(pk.Pkg.Path(), "/cmd/helios")
+		},
 	}
 	c.traceRule("stop-order", "loadbalancer.(*LoadBalancer).Stop", stop, sp,
 		"cancel < Wait < pool shutdown on every path; no lock operations",
@@ -1028,6 +1035,63 @@ func (c *Ctx) nonZeroIn(fn *ssa.Function, v ssa.Value, bind *nzBind, depth int) 
 			}
 		}
 	}
+	// a field of a small struct that a helper assembled (`t := serverTimeouts(cfg); … t.read`)
+	{
+		var base ssa.Value
+		fieldIdx := -1
+		switch x := v.(type) {
+		case *ssa.Field:
+			base, fieldIdx = x.X, x.Field
+		case *ssa.UnOp:
+			if fa, ok := x.X.(*ssa.FieldAddr); ok && x.Op == token.MUL {
+				base, fieldIdx = fa.X, fa.Field
+			}
+		}
+		if base != nil {
+			b := singleStore(base)
+			if ld, ok := b.(*ssa.UnOp); ok && ld.Op == token.MUL {
+				b = singleStore(ld.X)
+			}
+			if cell, ok := b.(*ssa.Alloc); ok && cell.Referrers() != nil {
+				// a local struct variable assigned once from the helper's result
+				var stored ssa.Value
+				ns := 0
+				for _, r := range *cell.Referrers() {
+					if st, isSt := r.(*ssa.Store); isSt && st.Addr == ssa.Value(cell) {
+						stored = st.Val
+						ns++
+					}
+				}
+				if ns == 1 {
+					b = stripConv(stored)
+				}
+			}
+			if call, ok := b.(*ssa.Call); ok {
+				if h := StaticFn(call); h != nil && p.IsHelios(h) && h.Blocks != nil {
+					nb := &nzBind{callee: h, args: call.Call.Args, caller: fn, outer: bind}
+					why, n := "", 0
+					instrsOf(h, func(in ssa.Instruction) {
+						st, ok := in.(*ssa.Store)
+						if !ok || why != "" {
+							return
+						}
+						fa, ok := st.Addr.(*ssa.FieldAddr)
+						if !ok || fa.Field != fieldIdx {
+							return
+						}
+						if !types.Identical(namedOrSelf(fa.X.Type()), namedOrSelf(base.Type())) {
+							return
+						}
+						n++
+						why = c.nonZeroIn(h, st.Val, nb, depth+1)
+					})
+					if n > 0 {
+						return why
+					}
+				}
+			}
+		}
+	}
 	d := p.Desc(v, nil)
 	if d == "fld:loadbalancer.healthChecker.activeTimeout" {
 		return "" // validated > 0 when active checks are enabled (C18 constraint table)
@@ -1111,5 +1175,16 @@ func (c *Ctx) stopIdempotent() {
 		c.Pass("stop-idempotent", construct, p.Pos(stop.Pos()), fmt.Sprintf("%d first-run × second-run path pairs: no unrepeatable operation is reached twice", nSecond))
 	} else {
 		c.Fail("stop-idempotent", construct, p.Pos(stop.Pos()), bad[0], bad...)
+	}
+}
+
+// namedOrSelf strips pointers so that *T and T compare equal.
+func namedOrSelf(t types.Type) types.Type {
+	for {
+		p, ok := t.Underlying().(*types.Pointer)
+		if !ok {
+			return t
+		}
+		t = p.Elem()
 	}
 }
